@@ -61,7 +61,7 @@ func c06R7(c *Ctx) {
 	}
 	key0 := "C06-R7|reflecting constructors"
 	if len(reflectors) < 2 {
-		c.unresolved(R, key0, fmt.Sprintf("expected Chain.CancelWithRcode and dnsutil.SetRcode among the functions copying req.Extra, found %d", len(reflectors)))
+		c.unresolved(R, key0, fmt.Sprintf("expected dnsutil.SetRcode and its wrapper among the functions copying req.Extra, found %d", len(reflectors)))
 		return
 	}
 	var names []string
@@ -116,5 +116,5 @@ func c06R7(c *Ctx) {
 			c.unresolved(R, "exempt|"+h, "exempted handler is no longer ahead of edns (stale table row)")
 		}
 	}
-	c.Floor(R, 8)
+	c.Floor(R, 7)
 }
